@@ -12,6 +12,7 @@ import (
 	sdkmetric "go.opentelemetry.io/otel/sdk/metric"
 	"go.opentelemetry.io/otel/sdk/metric/metricdata"
 	"go.opentelemetry.io/otel/sdk/resource"
+	"go.opentelemetry.io/otel/trace"
 )
 
 // TestVerifC18E2E: end-to-end lines. A scenario = exporter options + resource + instruments + measurements on a real
@@ -41,7 +42,7 @@ func TestVerifC18E2E(t *testing.T) {
 			rm := c18ParseData(c18ParseKVs(resTok), c18Groups(f[5:]))
 			c.reader = &c18Reader{Reader: c.reader, rm: rm}
 			obs := c18Gather(c)
-			data := c18Data(rm)
+			data := c18Data(rm, true)
 			sep := ""
 			if data != "" {
 				sep = " | "
@@ -64,6 +65,10 @@ func TestVerifC18E2E(t *testing.T) {
 	for i := 0; i < 3; i++ {
 		c18Scenario(out, g, ctx, "f34", "f34")
 	}
+	// a few scenarios with an exemplar client_golang refuses (> 128 runes) on every run
+	for i := 0; i < 4; i++ {
+		c18Scenario(out, g, ctx, "ex", "ex")
+	}
 	for i := 0; i < n; i++ {
 		c18Scenario(out, g, ctx, "rnd", "")
 	}
@@ -84,6 +89,7 @@ var c18KindNames = []string{"counter", "updown", "hist", "gauge", "ocounter", "o
 func c18Scenario(out *vOut, g *c18Gen, ctx context.Context, gen string, mode string) {
 	forceF28 := mode == "f28"
 	forceF34 := mode == "f34"
+	forceEx := mode == "ex" // sampled measurements on a counter/histogram whose View drops a long attribute: exemplar refused
 	r := g.r
 	legacy := r.Intn(3) == 0
 	flags := fmt.Sprintf("%d%d%d%d%d%d", b2i(legacy), b2i(r.Intn(4) == 0), b2i(r.Intn(4) == 0), b2i(r.Intn(5) == 0), b2i(r.Intn(5) == 0), b2i(r.Intn(4) == 0))
@@ -161,6 +167,12 @@ func c18Scenario(out *vOut, g *c18Gen, ctx context.Context, gen string, mode str
 			if forceF28 {
 				in.kind = 7
 			}
+			if forceEx {
+				in.kind = vPick(r, []int{0, 2})
+				for tries := 0; tries < 20 && !c18Legal(in.name); tries++ {
+					_, in.name = g.name()
+				}
+			}
 			if forceF34 {
 				for tries := 0; tries < 20 && !c18Legal(in.name); tries++ {
 					_, in.name = g.name()
@@ -180,20 +192,41 @@ func c18Scenario(out *vOut, g *c18Gen, ctx context.Context, gen string, mode str
 
 	gen += "-" + c18KindNames[scopes[0].insts[0].kind]
 
-	// views: exponential aggregation for kind 7
+	// views, one per (instrument name, kind): exponential aggregation for kind 7; in a third of the scenarios an
+	// attribute filter that drops the c18DropKeys (dropped attributes travel on the exemplars)
+	filterOn := r.Intn(3) == 0 || forceEx
 	var views []sdkmetric.View
+	seenView := map[string]bool{}
+	sdkKinds := []sdkmetric.InstrumentKind{sdkmetric.InstrumentKindCounter, sdkmetric.InstrumentKindUpDownCounter,
+		sdkmetric.InstrumentKindHistogram, sdkmetric.InstrumentKindGauge, sdkmetric.InstrumentKindObservableCounter,
+		sdkmetric.InstrumentKindObservableUpDownCounter, sdkmetric.InstrumentKindObservableGauge, sdkmetric.InstrumentKindHistogram}
 	for _, sp := range scopes {
 		for _, in := range sp.insts {
+			if in.kind != 7 && !filterOn {
+				continue
+			}
+			key := fmt.Sprintf("%s\x00%d", strings.ToLower(in.name), sdkKinds[in.kind])
+			if seenView[key] && in.kind != 7 {
+				continue
+			}
+			seenView[key] = true
+			var st sdkmetric.Stream
+			if filterOn {
+				dk := make([]attribute.Key, len(c18DropKeys))
+				for i, k := range c18DropKeys {
+					dk[i] = attribute.Key(k)
+				}
+				st.AttributeFilter = attribute.NewDenyKeysFilter(dk...)
+			}
 			if in.kind == 7 {
 				maxScale := vPick(r, []int32{20, 20, 8, 8, 5, 3, 0, -2, -4, -5, -8})
 				maxSize := vPick(r, []int32{160, 160, 8, 4, 2})
 				if forceF28 {
 					maxScale, maxSize = 20, 160
 				}
-				views = append(views, sdkmetric.NewView(
-					sdkmetric.Instrument{Name: in.name, Kind: sdkmetric.InstrumentKindHistogram},
-					sdkmetric.Stream{Aggregation: sdkmetric.AggregationBase2ExponentialHistogram{MaxSize: maxSize, MaxScale: maxScale}}))
+				st.Aggregation = sdkmetric.AggregationBase2ExponentialHistogram{MaxSize: maxSize, MaxScale: maxScale}
 			}
+			views = append(views, sdkmetric.NewView(sdkmetric.Instrument{Name: in.name, Kind: sdkKinds[in.kind]}, st))
 		}
 	}
 
@@ -203,6 +236,8 @@ func c18Scenario(out *vOut, g *c18Gen, ctx context.Context, gen string, mode str
 		out.Line("e2e %s %s %s - => new-error", gen, flags, nsTok)
 		return
 	}
+	tap := &c18Tap{Reader: cr.c.(*collector).reader}
+	cr.c.(*collector).reader = tap
 	r2 := sdkmetric.NewManualReader()
 	mp := sdkmetric.NewMeterProvider(sdkmetric.WithReader(exp), sdkmetric.WithReader(r2),
 		sdkmetric.WithResource(resource.NewSchemaless(res...)), sdkmetric.WithView(views...))
@@ -233,9 +268,45 @@ func c18Scenario(out *vOut, g *c18Gen, ctx context.Context, gen string, mode str
 					dupTag++
 					kvs = append(kvs, attribute.Int("id", dupTag))
 				}
+				if filterOn && (r.Intn(3) != 0 || forceEx) {
+					// attributes the View drops: short, straddling the 128-rune exemplar limit (63 runes are taken by
+					// trace_id/span_id), multi-byte, invalid UTF-8, long
+					for k := 1 + r.Intn(2); k > 0; k-- {
+						v := vPick(r, c18DropVals)
+						if forceEx {
+							v = strings.Repeat("a", 100)
+						}
+						kvs = append(kvs, attribute.String(vPick(r, c18DropKeys), v))
+					}
+				}
 				sets = append(sets, kvs)
 			}
-			c18Record(ctx, r, m, in, sets, forceF28)
+			// span contexts: sampled (exemplar offered), valid but unsampled, none
+			cx := func() context.Context {
+				k := r.Intn(10)
+				if forceEx {
+					k = 0
+				}
+				if k >= 5 {
+					return ctx
+				}
+				var tid trace.TraceID
+				var sid trace.SpanID
+				for i := range tid {
+					tid[i] = byte(r.U64())
+				}
+				for i := range sid {
+					sid[i] = byte(r.U64())
+				}
+				tid[0] |= 1
+				sid[0] |= 1
+				fl := trace.FlagsSampled
+				if k == 4 {
+					fl = 0
+				}
+				return trace.ContextWithSpanContext(ctx, trace.NewSpanContext(trace.SpanContextConfig{TraceID: tid, SpanID: sid, TraceFlags: fl}))
+			}
+			c18Record(cx, r, m, in, sets, forceF28)
 		}
 	}
 
@@ -245,7 +316,15 @@ func c18Scenario(out *vOut, g *c18Gen, ctx context.Context, gen string, mode str
 		return
 	}
 	obs := c18Gather(cr.c)
-	data := c18Data(&rm)
+	data := c18Data(&rm, false)
+	if tap.last != "" {
+		// input part = what the exporter's own reader delivered (incl. its exemplars); apart from the exemplars it must be
+		// what the independent second reader saw
+		if tap.plain != data {
+			obs = "sdk-readers-differ " + obs
+		}
+		data = tap.last
+	}
 	sep := ""
 	if data != "" {
 		sep = " | "
@@ -270,9 +349,16 @@ func c18Legal(s string) bool {
 	return true
 }
 
+var c18DropKeys = []string{"url.full", "drop.me", "drop_me", "é.k", "drop:c"}
+var c18DropVals = []string{"", "x", "GET", strings.Repeat("a", 10), strings.Repeat("a", 48), strings.Repeat("a", 49), strings.Repeat("a", 50),
+	strings.Repeat("a", 55), strings.Repeat("a", 56), strings.Repeat("a", 57), strings.Repeat("a", 58), strings.Repeat("a", 59),
+	strings.Repeat("a", 64), strings.Repeat("a", 65), strings.Repeat("a", 66), strings.Repeat("a", 100), strings.Repeat("ab", 100),
+	strings.Repeat("é", 20), strings.Repeat("é", 40), strings.Repeat("é", 56), strings.Repeat("é", 57), strings.Repeat("é", 58),
+	strings.Repeat("é", 59), strings.Repeat("日本", 14), strings.Repeat("日本", 40), "\xff", "a\xffb", "https://example.com/" + strings.Repeat("p/", 30)}
+
 var c18HistVals = []float64{0, 0.25, 1, 1, 2, 3, 4, 5, 7.5, 10, 16, 100, 1000, 1024, 20000, 0.5, 0.75}
 
-func c18Record(ctx context.Context, r *vRand, m metric.Meter, in c18Inst, sets [][]attribute.KeyValue, single bool) {
+func c18Record(cx func() context.Context, r *vRand, m metric.Meter, in c18Inst, sets [][]attribute.KeyValue, single bool) {
 	opts := func() (string, string) { return in.unit, in.desc }
 	u, d := opts()
 	for _, kvs := range sets {
@@ -286,24 +372,24 @@ func c18Record(ctx context.Context, r *vRand, m metric.Meter, in c18Inst, sets [
 			if in.float {
 				c, _ := m.Float64Counter(in.name, metric.WithUnit(u), metric.WithDescription(d))
 				for ; k > 0; k-- {
-					c.Add(ctx, float64(r.Intn(400))/4, ao)
+					c.Add(cx(), float64(r.Intn(400))/4, ao)
 				}
 			} else {
 				c, _ := m.Int64Counter(in.name, metric.WithUnit(u), metric.WithDescription(d))
 				for ; k > 0; k-- {
-					c.Add(ctx, int64(r.Intn(100)), ao)
+					c.Add(cx(), int64(r.Intn(100)), ao)
 				}
 			}
 		case 1:
 			if in.float {
 				c, _ := m.Float64UpDownCounter(in.name, metric.WithUnit(u), metric.WithDescription(d))
 				for ; k > 0; k-- {
-					c.Add(ctx, float64(r.Intn(400)-200)/4, ao)
+					c.Add(cx(), float64(r.Intn(400)-200)/4, ao)
 				}
 			} else {
 				c, _ := m.Int64UpDownCounter(in.name, metric.WithUnit(u), metric.WithDescription(d))
 				for ; k > 0; k-- {
-					c.Add(ctx, int64(r.Intn(100)-50), ao)
+					c.Add(cx(), int64(r.Intn(100)-50), ao)
 				}
 			}
 		case 2, 7:
@@ -319,7 +405,7 @@ func c18Record(ctx context.Context, r *vRand, m metric.Meter, in c18Inst, sets [
 					if neg && r.Bool() {
 						v = -v
 					}
-					c.Record(ctx, v, ao)
+					c.Record(cx(), v, ao)
 				}
 			} else {
 				c, _ := m.Int64Histogram(in.name, metric.WithUnit(u), metric.WithDescription(d))
@@ -328,19 +414,19 @@ func c18Record(ctx context.Context, r *vRand, m metric.Meter, in c18Inst, sets [
 					if neg && r.Bool() {
 						v = -v
 					}
-					c.Record(ctx, v, ao)
+					c.Record(cx(), v, ao)
 				}
 			}
 		case 3:
 			if in.float {
 				c, _ := m.Float64Gauge(in.name, metric.WithUnit(u), metric.WithDescription(d))
 				for ; k > 0; k-- {
-					c.Record(ctx, float64(r.Intn(400)-200)/4, ao)
+					c.Record(cx(), float64(r.Intn(400)-200)/4, ao)
 				}
 			} else {
 				c, _ := m.Int64Gauge(in.name, metric.WithUnit(u), metric.WithDescription(d))
 				for ; k > 0; k-- {
-					c.Record(ctx, int64(r.Intn(100)-50), ao)
+					c.Record(cx(), int64(r.Intn(100)-50), ao)
 				}
 			}
 		}
